@@ -14,11 +14,12 @@ from props import common
 UNDEF = "zz_undefined"
 
 
-def locate(text, ident):
-    """1-based line and 0-based column of the first occurrence of ident as a whole word after the
-    metadata block"""
+def locate(text, ident, last=False):
+    """1-based line and 0-based column of the first (or last) occurrence of ident as a whole word
+    after the metadata block"""
     start = text.index("\n\n") if "\n\n" in text else 0
-    m = re.compile(r"(?<![0-9A-Za-z_])" + re.escape(ident) + r"(?![0-9A-Za-z_])").search(text, start)
+    rx = re.compile(r"(?<![0-9A-Za-z_])" + re.escape(ident) + r"(?![0-9A-Za-z_])")
+    m = list(rx.finditer(text, start))[-1] if last else rx.search(text, start)
     before = text[: m.start()]
     return before.count("\n") + 1, len(before) - (before.rfind("\n") + 1)
 
@@ -39,6 +40,14 @@ def faults(rng, base_decls):
           ("undefined", "scalar-declaration", "float w_ = 1 + %s\n" % u),
           ("undefined", "array-declaration", "float array B_ =\n    1, %s\n" % u),
           ("undefined", "function-argument", "G(sin(%s)) | 0\n" % u)]
+    # the loop variable is not defined after its loop (the unrolled script would be refused)
+    lv = "lv_"
+    for slot, use in (("mode", "G | %s\n"), ("positional", "G(%s) | 0\n"), ("keyword", "G(a=2*%s) | 0\n"),
+                      ("list-element", "G(a=[1, %s]) | 0\n"), ("array-index", "G(A_[%s]) | 0\n"),
+                      ("scalar-declaration", "int w_ = %s + 1\n"), ("later-loop-list", "for int m_ in [0, %s]\n    G | m_\n")):
+        loop = rng.choice(["for int %s in 0:2\n    G | %s\n", "for int %s in [1, 0]\n    G(%s) | 0\n",
+                           "for int %s in 1:3\n    G | 0\n    H(%s) | 1\n"]) % (lv, lv)
+        f.append(("undefinedAfterLoop", slot + ":" + lv, loop + use % lv))
     # reserved names
     for nm in ("q0", "q12", "name", "version", "target", "type"):
         kind = "reservedRegref" if nm.startswith("q") else "reservedKeyword"
@@ -90,12 +99,12 @@ def check_fault(cls, text, ident=None):
     if ic[0] == "prog":
         return "faulty script (%s) is accepted: operations %s, variables %s" % (
             cls, [(o["op"], o["modes"]) for o in ic[1]["ops"]][:5], ic[1]["vars"][:6])
-    if cls in ("undefined", "reservedRegref", "reservedKeyword"):
+    if cls in ("undefined", "undefinedAfterLoop", "reservedRegref", "reservedKeyword"):
         if ic[1] != "syntax":
             return "%s name raises %r, not BlackbirdSyntaxError" % (cls, obj)
         msg = str(obj.args[0]) if obj.args else ""
         if ident is not None:
-            line, col = locate(text, ident)
+            line, col = locate(text, ident, last=(cls == "undefinedAfterLoop"))
             if ("'%s'" % ident) not in msg:
                 return "message does not name the identifier %s: %r" % (ident, msg)
             m = re.search(r"\(line (\d+):(\d+)\)", msg)
@@ -123,7 +132,7 @@ def replay(ctx, data):
 def run(ctx):
     ctx.rule = ("otherwise valid random scripts with exactly one fault injected at a random statement position: "
                 "an undefined name in each of 12 syntactic slots, a reserved name (qN, name, version, target, type) "
-                "as scalar or array variable, a mode of float/complex/string value (literal, variable, computed; alone and at the first, middle and last position of a mode list), a "
+                "as scalar or array variable, the variable of a finished loop in each of seven slots, a mode of float/complex/string value (literal, variable, computed; alone and at the first, middle and last position of a mode list), a "
                 "literal or computed complex value for an int/float scalar or array, a wrongly typed loop value, an "
                 "included program called with the wrong number of modes or wrong keyword arguments; oracle: loads "
                 "raises; for undefined and reserved names a BlackbirdSyntaxError naming the identifier with its line "
@@ -140,7 +149,8 @@ def run(ctx):
             body_before = "".join(gen.r_item(it, gen.Layout()) for it in items[:at])
             body_after = "".join(gen.r_item(it, gen.Layout()) for it in items[at:])
             text = "name f\nversion 1.0\n\n" + DECLS + body_before + frag + body_after
-            ident = UNDEF if cls == "undefined" else (slot.split(":")[1] if cls.startswith("reserved") else None)
+            ident = UNDEF if cls == "undefined" else (
+                slot.split(":")[1] if cls.startswith("reserved") or cls == "undefinedAfterLoop" else None)
             ctx.case(text)
             ctx.count(cls)
             ctx.count("slot:" + cls + ":" + slot.split(":")[0])
